@@ -117,33 +117,62 @@ REG.fn(D, "dijkstra", prop="C11", ret="Result[opt[list[U<S>]]]", strict_inf=True
                   "forall(j, implies(0 <= j < len(heap), get(g, current) <= heap[j][0]), trig=heap[j])",
               ])})
 
-# ------------------------------------------------------------------ astar: same path-validity contract
+# ------------------------------------------------------------------ astar (weight 1, consistent heuristic): real path AND certificate
+# Scope of C11 for astar: weight == 1 and an admissible-and-consistent heuristic.  H = the heuristic (pure), N / goalp as for
+# dijkstra.  The argument is dijkstra's with f = g + H as the key: pops are monotone in f because a pushed successor has
+# f(v) = g(u) + w + H(v) >= g(u) + H(u) (consistency); a closed neighbour that the code skips is relaxed for the same reason.
 A = "solvor/a_star.py"
-REG.callback("heur", ["U<S>"], "real", pure=False, post="-inf() < result and result < inf()")
-DI = [
-    "has(g, start)", "get(g, start) == 0", "not has(parent, start)",
+REG.callback("Hh", ["U<S>"], "real", pure=True)
+FV = "(get(g, {v}) + Hh({v}))"
+AJ = [
+    "has(g, start)", "get(g, start) == 0", "not has(parent, start)", "weight == 1",
     "forall(v, implies(has(g, v), get(g, v) >= 0 and get(g, v) < inf()), sorts={'v': 'U<S>'}, trig=has(g, v))",
     "forall(v, implies(has(g, v) and v != start, has(parent, v)), sorts={'v': 'U<S>'}, trig=has(g, v))",
-    "forall(v, implies(has(parent, v), has(g, v) and has(g, get(parent, v)) and has(closed, get(parent, v)) and Edge(get(parent, v), v, pw[v]) and get(g, v) == get(g, get(parent, v)) + pw[v]), sorts={'v': 'U<S>'}, trig=has(parent, v))",
-    "forall(v, implies(has(closed, v), has(g, v)), sorts={'v': 'U<S>'}, trig=has(closed, v))",
-    "forall(j, implies(0 <= j < len(heap), has(g, heap[j][2])), trig=heap[j])",
+    "forall(v, implies(has(parent, v), has(g, v) and has(g, get(parent, v)) and has(closed, get(parent, v)) and 0 <= pi[v] < len(N(get(parent, v))) and N(get(parent, v))[pi[v]][0] == v and get(g, v) == get(g, get(parent, v)) + N(get(parent, v))[pi[v]][1]), sorts={'v': 'U<S>'}, trig=has(parent, v))",
+    "forall(v, implies(has(closed, v), has(g, v) and not goalp(v)), sorts={'v': 'U<S>'}, trig=has(closed, v))",
+    # heap entries: labelled nodes, key never below the node's current f, never below the f of a closed node
+    "forall(j, implies(0 <= j < len(heap), has(g, heap[j][3]) and heap[j][0] >= " + FV.format(v="heap[j][3]") + " and heap[j][0] < inf()), trig=heap[j])",
+    "forall(u, j, implies(has(closed, u) and 0 <= j < len(heap), " + FV.format(v="u") + " <= heap[j][0]), sorts={'u': 'U<S>'}, trig=((has(closed, u), heap[j]),))",
+    "forall(v, implies(has(g, v) and not has(closed, v), 0 <= where[v] < len(heap) and heap[where[v]][3] == v and heap[where[v]][0] == " + FV.format(v="v") + "), sorts={'v': 'U<S>'}, trig=has(g, v))",
 ]
-AI = [x.replace("heap[j][2]", "heap[j][3]") for x in DI]
 REG.fn(A, "astar", prop="C11", ret="Result[opt[list[U<S>]]]", strict_inf=True,
-       requires=["-inf() < weight and weight < inf()"],
-       types={"goal": "opaque", "neighbors": "fun:dnbr", "heuristic": "fun:heur", "is_goal": "fun:isgoal", "max_cost": "opt[real]",
-              "weight": "real", "pw": "map[U<S>,real]", "path": "list[U<S>]"},
-       ghost_before=[("g: dict[S, float] = {start: 0.0}", "pw", "lam(v, 0.0, sort='U<S>')")],
-       ghost_after=[("parent[neighbor] = current", "pw", "store(pw, neighbor, edge_cost)")],
+       types={"goal": "opaque", "neighbors": "fun:N", "heuristic": "fun:Hh", "is_goal": "fun:goalp", "max_cost": "opt[real]",
+              "weight": "real", "pi": "map[U<S>,int]", "where": "map[U<S>,int]", "path": "list[U<S>]", "f_start": "real", "f_new": "real"},
+       requires=["is_none(max_cost)", "weight == 1",
+                 "forall(u, i, implies(0 <= i < len(N(u)), N(u)[i][1] >= 0 and N(u)[i][1] < inf()), sorts={'u': 'U<S>'}, trig=N(u)[i])",
+                 # the heuristic: finite, non-negative, zero on goals, consistent along every offered edge
+                 "forall(u, Hh(u) >= 0 and Hh(u) < inf() and implies(goalp(u), Hh(u) == 0), sorts={'u': 'U<S>'}, trig=Hh(u))",
+                 "forall(u, i, implies(0 <= i < len(N(u)), Hh(u) <= N(u)[i][1] + Hh(N(u)[i][0])), sorts={'u': 'U<S>'}, trig=N(u)[i])"],
+       ghost_before=[("g: dict[S, float] = {start: 0.0}", "pi", "lam(v, 0, sort='U<S>')"),
+                     ("g: dict[S, float] = {start: 0.0}", "where", "lam(v, 0, sort='U<S>')")],
+       ghost_after=[("parent[neighbor] = current", "pi", "store(pi, neighbor, _k2)"),
+                    ("_, _, _, current = heappop(heap)", "where", "lam(v, _heap_inv[where[v]], sort='U<S>')"),
+                    ("heappush(heap, (f_new, -tentative_g, counter, neighbor))", "where", "store(where, neighbor, len(heap) - 1)")],
        ensures=[
-           "implies(result.status != 1 and result.status != 2, is_none(result.solution))",
-           "implies(result.status == 1, weight == 1)",
-           "implies(result.status == 1 or result.status == 2, not is_none(result.solution) and len(val(result.solution)) >= 1)",
-           "implies(result.status == 1 or result.status == 2, val(result.solution)[0] == start and get(g, start) == 0)",
-           "implies(result.status == 1 or result.status == 2, result.objective == get(g, val(result.solution)[len(val(result.solution)) - 1]))",
-           "implies(result.status == 1 or result.status == 2, forall(i, implies(0 <= i < len(val(result.solution)) - 1, Edge(val(result.solution)[i], val(result.solution)[i + 1], pw[val(result.solution)[i + 1]]) and get(g, val(result.solution)[i + 1]) == get(g, val(result.solution)[i]) + pw[val(result.solution)[i + 1]]), trig=val(result.solution)[i]))",
+           "implies(result.status != 1, is_none(result.solution))",
+           "result.status != 2",
+           "implies(result.status == 1, not is_none(result.solution) and len(val(result.solution)) >= 1)",
+           # (1) real path
+           "implies(result.status == 1, val(result.solution)[0] == start and get(g, start) == 0 and goalp(val(result.solution)[len(val(result.solution)) - 1]))",
+           "implies(result.status == 1, result.objective == get(g, val(result.solution)[len(val(result.solution)) - 1]))",
+           "implies(result.status == 1, forall(i, implies(0 <= i < len(val(result.solution)) - 1, 0 <= pi[val(result.solution)[i + 1]] < len(N(val(result.solution)[i])) and N(val(result.solution)[i])[pi[val(result.solution)[i + 1]]][0] == val(result.solution)[i + 1] and get(g, val(result.solution)[i + 1]) == get(g, val(result.solution)[i]) + N(val(result.solution)[i])[pi[val(result.solution)[i + 1]]][1]), trig=val(result.solution)[i]))",
+           # (2) optimality certificate: the closed set (without the goal just popped) is relaxed and holds no goal, every labelled
+           #     node outside it has g + H >= objective.  Paper lemma: a walk from the source to any goal leaves the closed set at a
+           #     labelled node v with g(v) <= length so far, and by consistency the rest is >= H(v) - H(goal) = H(v): length >= objective.
+           "implies(result.status == 1, forall(u, implies(has(closed, u) and u != current, " + RELAXED.format(u="u") + " and " + FV.format(v="u") + " <= result.objective), sorts={'u': 'U<S>'}, trig=has(closed, u)))",
+           "implies(result.status == 1, forall(v, implies(has(g, v) and (not has(closed, v) or v == current), " + FV.format(v="v") + " >= result.objective), sorts={'v': 'U<S>'}, trig=has(g, v)))",
+           "implies(result.status == 1, forall(u, implies(has(closed, u) and u != current, not goalp(u)), sorts={'u': 'U<S>'}, trig=has(closed, u)))",
+           # (3) INFEASIBLE certificate
+           "implies(result.status == 3, has(g, start) and forall(u, implies(has(g, u), has(closed, u) and not goalp(u) and " + RELAXED.format(u="u") + "), sorts={'u': 'U<S>'}, trig=has(g, u)))",
        ],
-       loops={1: LoopSpec(invariants=AI), 2: LoopSpec(invariants=AI + ["has(g, current)", "has(closed, current)"])})
+       loops={1: LoopSpec(invariants=AJ + ["forall(u, implies(has(closed, u), " + RELAXED.format(u="u") + "), sorts={'u': 'U<S>'}, trig=has(closed, u))"]),
+              2: LoopSpec(invariants=AJ + [
+                  "has(g, current)", "has(closed, current)", "not goalp(current)",
+                  "forall(u, implies(has(closed, u) and u != current, " + RELAXED.format(u="u") + "), sorts={'u': 'U<S>'}, trig=has(closed, u))",
+                  "forall(i, implies(0 <= i < _k2, has(g, N(current)[i][0]) and get(g, N(current)[i][0]) <= get(g, current) + N(current)[i][1]), trig=N(current)[i])",
+                  "forall(u, implies(has(closed, u), " + FV.format(v="u") + " <= " + FV.format(v="current") + "), sorts={'u': 'U<S>'}, trig=has(closed, u))",
+                  "forall(j, implies(0 <= j < len(heap), " + FV.format(v="current") + " <= heap[j][0]), trig=heap[j])",
+              ])})
 
 # ------------------------------------------------------------------ bfs / dfs: a returned path is a genuine path
 BF_ = "solvor/bfs.py"
